@@ -113,7 +113,10 @@ def build_world(spec):
                 os.mkdir(hp, 0o755)
             chmods.append((hp, n.get("m", 0o755)))
         elif t == "f":
-            data = n.get("c", "").encode("latin-1") * n.get("rep", 1)
+            try:
+                data = n.get("c", "").encode("latin-1") * n.get("rep", 1)
+            except UnicodeEncodeError:
+                data = n.get("c", "").encode("utf-8", "surrogateescape") * n.get("rep", 1)
             fd = os.open(hp, os.O_WRONLY | os.O_CREAT | os.O_EXCL, 0o644)
             try:
                 os.write(fd, data)
